@@ -32,6 +32,7 @@ type frame struct {
 	argVals []ssa.Value // caller-frame values (for closures / nested resolution) – unused for now
 	pred    *ssa.BasicBlock
 	cur     *ssa.BasicBlock
+	phis    map[*ssa.Phi]any // values the phis took when their block was last entered (nil entry: not evaluable)
 }
 
 func (ev *enumEval) undecided(format string, a ...any) {
@@ -59,6 +60,34 @@ func (ev *enumEval) callFn(fn *ssa.Function, argKeys []string) (any, bool) {
 			return nil, false
 		}
 		fr.cur = b
+		if fr.pred != nil {
+			// the phis of the block take their values on entry, all at once (a loop-carried value read later in
+			// the body is the one of this iteration)
+			if fr.phis == nil {
+				fr.phis = map[*ssa.Phi]any{}
+			}
+			vals := map[*ssa.Phi]any{}
+			for _, in := range b.Instrs {
+				ph, ok := in.(*ssa.Phi)
+				if !ok {
+					break
+				}
+				for i, p := range b.Preds {
+					if p == fr.pred {
+						why := ev.why
+						if v, ok := ev.eval(fr, ph.Edges[i]); ok {
+							vals[ph] = v
+						} else {
+							vals[ph] = nil
+							ev.why = why // only matters if the phi is actually read
+						}
+					}
+				}
+			}
+			for ph, v := range vals {
+				fr.phis[ph] = v
+			}
+		}
 		term := b.Instrs[len(b.Instrs)-1]
 		switch t := term.(type) {
 		case *ssa.Return:
@@ -129,7 +158,24 @@ func (ev *enumEval) eval(fr *frame, v ssa.Value) (any, bool) {
 		return nil, false
 	case *ssa.Convert:
 		return ev.eval(fr, x.X)
+	case *ssa.Function:
+		return x, true
+	case *ssa.MakeClosure:
+		if fn, ok := x.Fn.(*ssa.Function); ok && len(x.Bindings) == 0 {
+			return fn, true
+		}
+		ev.undecided("closure with bindings as a value")
+		return nil, false
+	case *ssa.ChangeType:
+		return ev.eval(fr, x.X)
 	case *ssa.Phi:
+		if v, ok := fr.phis[x]; ok {
+			if v == nil {
+				ev.undecided("phi %s takes a value outside the fragment", ev.c.key(x, nil))
+				return nil, false
+			}
+			return v, true
+		}
 		for i, p := range x.Block().Preds {
 			if p == fr.pred {
 				return ev.eval(fr, x.Edges[i])
@@ -185,6 +231,53 @@ func (ev *enumEval) eval(fr *frame, v ssa.Value) (any, bool) {
 					}
 				}
 			}
+			// field of an element of a package-level slice-of-struct literal: *(&table[i].f)
+			if fa, ok := x.X.(*ssa.FieldAddr); ok {
+				base := fa.X
+				// a local copy of the element (`for _, rule := range table`): one store of *(&table[i]) into the
+				// local, in a block that dominates the read
+				if al, ok := base.(*ssa.Alloc); ok && al.Referrers() != nil {
+					var st *ssa.Store
+					n := 0
+					for _, ref := range *al.Referrers() {
+						if s2, ok := ref.(*ssa.Store); ok && s2.Addr == ssa.Value(al) {
+							st = s2
+							n++
+						}
+					}
+					if n == 1 && (st.Block() == x.Block() || st.Block().Dominates(x.Block())) {
+						if ld, ok := st.Val.(*ssa.UnOp); ok && ld.Op == token.MUL {
+							base = ld.X
+						}
+					}
+				}
+				if ia, ok := base.(*ssa.IndexAddr); ok {
+					if g := ev.c.globalBehind(ia.X, nil); g != nil && ev.c.globalSliceArray(g) != nil && ev.c.onlyInitWrites(g) {
+						iv, ok := ev.eval(fr, ia.Index)
+						if !ok {
+							return nil, false
+						}
+						n, isInt := iv.(int64)
+						if !isInt || n < 0 || n >= ev.c.globalSliceLen(g) {
+							ev.undecided("table %s indexed out of range", g.Name())
+							return nil, false
+						}
+						if fv := ev.c.globalSliceField(g, n, fa.Field); fv != nil {
+							return ev.eval(fr, fv)
+						}
+						if b, ok := x.Type().Underlying().(*types.Basic); ok {
+							if b.Info()&types.IsBoolean != 0 {
+								return false, true
+							}
+							if b.Info()&types.IsInteger != 0 {
+								return int64(0), true
+							}
+						}
+						ev.undecided("element %d of %s has no value for field %d", n, g.Name(), fa.Field)
+						return nil, false
+					}
+				}
+			}
 			// a leaf: load of an enum-typed field
 			k := ev.leafKey(fr, x)
 			if val, ok := ev.asg[k]; ok {
@@ -198,6 +291,37 @@ func (ev *enumEval) eval(fr *frame, v ssa.Value) (any, bool) {
 			return nil, false
 		}
 	case *ssa.Field:
+		// field of an element of a package-level slice-of-struct literal written only by the initialiser
+		if ld, ok := x.X.(*ssa.UnOp); ok && ld.Op == token.MUL {
+			if ia, ok := ld.X.(*ssa.IndexAddr); ok {
+				if g := ev.c.globalBehind(ia.X, nil); g != nil && ev.c.globalSliceArray(g) != nil && ev.c.onlyInitWrites(g) {
+					iv, ok := ev.eval(fr, ia.Index)
+					if !ok {
+						return nil, false
+					}
+					n, isInt := iv.(int64)
+					if !isInt || n < 0 || n >= ev.c.globalSliceLen(g) {
+						ev.undecided("table %s indexed out of range", g.Name())
+						return nil, false
+					}
+					fv := ev.c.globalSliceField(g, n, x.Field)
+					if fv == nil {
+						// a field the literal leaves out: the zero value
+						if b, ok := x.Type().Underlying().(*types.Basic); ok {
+							if b.Info()&types.IsBoolean != 0 {
+								return false, true
+							}
+							if b.Info()&types.IsInteger != 0 {
+								return int64(0), true
+							}
+						}
+						ev.undecided("element %d of %s has no value for field %d", n, g.Name(), x.Field)
+						return nil, false
+					}
+					return ev.eval(fr, fv)
+				}
+			}
+		}
 		k := ev.leafKey(fr, x)
 		if val, ok := ev.asg[k]; ok {
 			return val, true
@@ -233,6 +357,10 @@ func (ev *enumEval) eval(fr *frame, v ssa.Value) (any, bool) {
 				return li > ri, true
 			case token.GEQ:
 				return li >= ri, true
+			case token.ADD:
+				return li + ri, true
+			case token.SUB:
+				return li - ri, true
 			}
 		}
 		lb, lok2 := l.(bool)
@@ -277,7 +405,24 @@ func (ev *enumEval) eval(fr *frame, v ssa.Value) (any, bool) {
 		_, val, ok := ev.lookup(fr, x)
 		return val, ok && val != nil
 	case *ssa.Call:
+		if bi, ok := x.Call.Value.(*ssa.Builtin); ok && bi.Name() == "len" && len(x.Call.Args) == 1 {
+			if g := ev.c.globalBehind(x.Call.Args[0], nil); g != nil && ev.c.globalSliceArray(g) != nil && ev.c.onlyInitWrites(g) {
+				return ev.c.globalSliceLen(g), true
+			}
+			ev.undecided("len of %s", ev.c.key(x.Call.Args[0], nil))
+			return nil, false
+		}
 		f := x.Call.StaticCallee()
+		if f == nil && !x.Call.IsInvoke() {
+			// a call through a function value taken from a constant table
+			if fv, ok := ev.eval(fr, x.Call.Value); ok {
+				if fn, isFn := fv.(*ssa.Function); isFn {
+					f = fn
+				}
+			} else {
+				return nil, false
+			}
+		}
 		if f != nil && !inModule(f) && len(x.Call.Args) == 1 {
 			// trusted models of unicode rune classes at the few constants the rules ask about
 			name := f.String()
